@@ -388,4 +388,65 @@ theorem munion_head {rev : Bool} {Ls : List (List Entry)} (hs : ∀ L ∈ Ls, DS
             · exact hLk
             · exact hLs L'' hL''
 
+/-! ### seeking commutes with the union -/
+
+theorem dw_pos {p : Entry → Bool} {a : Entry} {l : List Entry} (h : p a = true) :
+    (a :: l).dropWhile p = l.dropWhile p := by simp [List.dropWhile_cons, h]
+
+theorem dw_neg {p : Entry → Bool} {a : Entry} {l : List Entry} (h : ¬ p a = true) :
+    (a :: l).dropWhile p = a :: l := List.dropWhile_cons_of_neg h
+
+theorem merge2_dropWhile (rev : Bool) (k : Bytes) (L U : List Entry) :
+    merge2 rev (L.dropWhile (before rev k)) (U.dropWhile (before rev k))
+      = (merge2 rev L U).dropWhile (before rev k) := by
+  induction L generalizing U with
+  | nil => simp
+  | cons l L' ihL =>
+    induction U with
+    | nil => simp
+    | cons u U' ihU =>
+      rw [merge2_cons_cons]
+      by_cases hl : before rev k l = true
+      · by_cases hu : before rev k u = true
+        · -- both heads are before k
+          by_cases h1 : dlt rev l.1 u.1 = true
+          · rw [if_pos h1, dw_pos hl, dw_pos hl, ← ihL]
+          · rw [if_neg h1]
+            by_cases h2 : dlt rev u.1 l.1 = true
+            · rw [if_pos h2, dw_pos hu, dw_pos hu, ← ihU]
+            · rw [if_neg h2, dw_pos hl, dw_pos hl, dw_pos hu, ← ihL]
+        · -- l before k, u not: then l < u
+          have hu' : before rev k u = false := by simpa using hu
+          have h1 : dlt rev l.1 u.1 = true := by
+            rw [before_eq_dlt] at hl hu'
+            rcases dlt_trichotomy rev l.1 u.1 with h | h | h
+            · exact h
+            · rw [h] at hl; rw [hl] at hu'; cases hu'
+            · rw [dlt_trans h hl] at hu'; cases hu'
+          rw [if_pos h1, dw_pos hl, dw_pos hl, ← ihL]
+      · have hl' : before rev k l = false := by simpa using hl
+        by_cases hu : before rev k u = true
+        · have h2 : dlt rev u.1 l.1 = true := by
+            rw [before_eq_dlt] at hl' hu
+            rcases dlt_trichotomy rev u.1 l.1 with h | h | h
+            · exact h
+            · rw [h] at hu; rw [hu] at hl'; cases hl'
+            · rw [dlt_trans h hu] at hl'; cases hl'
+          rw [if_neg (by rw [dlt_asymm h2]; simp), if_pos h2, dw_pos hu, dw_pos hu, ← ihU]
+        · -- neither head is before k: nothing is dropped
+          rw [dw_neg hl, dw_neg hu, merge2_cons_cons]
+          by_cases h1 : dlt rev l.1 u.1 = true
+          · rw [if_pos h1, dw_neg hl]
+          · rw [if_neg h1]
+            by_cases h2 : dlt rev u.1 l.1 = true
+            · rw [if_pos h2, dw_neg hu]
+            · rw [if_neg h2, dw_neg hl]
+
+theorem munion_dropWhile (rev : Bool) (k : Bytes) (Ls : List (List Entry)) :
+    munion rev (Ls.map (fun L => L.dropWhile (before rev k))) = (munion rev Ls).dropWhile (before rev k) := by
+  induction Ls with
+  | nil => simp [munion]
+  | cons L Ls ih =>
+    rw [List.map_cons, munion_cons, munion_cons, ih, merge2_dropWhile]
+
 end C07
